@@ -16,6 +16,7 @@ import os
 import re
 
 import vlib
+from props import c12_health
 
 PID = "C12"
 ALL_OPS = ["Add", "Remove", "SetPolicy", "Health", "ResetHealth", "RetryFail", "RetrySucceed", "Elapse",
@@ -163,6 +164,9 @@ def run(tier, replay=None):
     if replay:
         with open(replay) as f:
             first = f.read(1)
+        if c12_health.handles(replay):
+            c12_health.run_replay(rep, replay, devs)
+            rep.finish()
         if first == "[":
             out = vlib.run_harness(bins["replay_backends"], ["--seed", str(seed), "--deviations", ",".join(devs)],
                                    stdin_path=replay)
@@ -179,6 +183,9 @@ def run(tier, replay=None):
                 rep.cov["traces_validated_against_impl"] = 1
         rep.cov["rule"] = "replay of %s" % replay
         rep.finish()
+
+    # the health-checker legs (spec/HealthCheck.tla) run in the background, merged into this report at the end
+    health = c12_health.start(tier, devs)
 
     # 1. design level, no deviation: exhaustive over bounded histories, then long random histories
     depth = 6 if thorough else 4
@@ -319,8 +326,9 @@ def run(tier, replay=None):
         "active_requests is a public field maintained by session code; the harness performs the same += 1 / saturating_sub(1) itself, so only its use by the load-based policies is checked here, not the sessions' bookkeeping",
         "the LoadMetric ConnectionTime (peak EWMA, floating point) is not driven; HealthState is driven through record_success / record_failure directly, not through the health checker's sockets",
         "selection is a relation: rr/random may return any eligible backend; leastLoaded a minimum; p2c one of the two least loaded; hrw/maglev the same address for the same key while the eligible set (ids, addresses, weights) is the same",
-        "no end-to-end leg (real worker + mock backends) in this check; Backend::set_closing has no caller in sozu itself, the harness calls it as a public API",
+        "no end-to-end leg (real worker + mock backends) for selection in this check (the health legs run real workers); Backend::set_closing has no caller in sozu itself, the harness calls it as a public API",
     ]
+    rep.cov["rule"] += c12_health.finish(health, rep)
     rep.finish()
 
 
